@@ -239,11 +239,17 @@ pub fn run(seed: u64, out: &str, millis: u64) -> bool {
 /// buffer is large, so the consumer holds the sketch's write lock for a whole batch at a time. Meanwhile never-seen keys of
 /// the resident's weight are put, one after the other, each awaited. Once the first batch has been delivered the resident's
 /// estimate is at least 7 at every instant (saturated at 15, halved at most once between two batches of its own
-/// increments) and a never-seen key's is 0 — the same on every run: hashing is seeded with constants —, so the TinyLFU rule
-/// refuses every one of these puts and the resident stays. A sketch read that does not WAIT for the consumer (a `try_*`
-/// acquisition that answers 0) makes hot and cold keys look alike exactly here, and nowhere in a step-wise schedule.
+/// increments). The four rows of the sketch index with `(hash ^ seed) % counters`, so a key whose hash agrees with the
+/// resident's in the low bits shares ALL its counters (and, right after an ageing step, ties with it: 7 against 7 — the
+/// first version of this phase, with the default hash, was refused by the unchanged crate about once in 50 000 puts for
+/// exactly that reason). The hash function installed here is the identity and the never-read keys are chosen with other
+/// low bits than the resident: none of their counters is ever incremented, their estimate is 0 (1 with a false positive of
+/// the doorkeeper), so the TinyLFU rule refuses every one of these puts and the resident stays. A sketch read that does not
+/// WAIT for the consumer (a `try_*` acquisition that answers 0) makes hot and cold keys look alike exactly here, and
+/// nowhere in a step-wise schedule.
 fn cold_put_under_drain(sink: &mut Sink, millis: u64) -> bool {
     let config = ConfigBuilder::new(1024, 16, 10)
+        .key_hash_fn(Box::new(|key: &u64| *key))
         .access_pool_size(1).access_buffer_size(100_000).command_buffer_size(64).shards(2)
         .ttl_tick_duration(Duration::from_millis(50)).build();
     let cache = Arc::new(CacheD::<u64, u64>::new(config));
@@ -261,9 +267,10 @@ fn cold_put_under_drain(sink: &mut Sink, millis: u64) -> bool {
     while stats(StatsType::AccessAdded) < 100_000 && Instant::now() < warm_until { std::thread::sleep(Duration::from_millis(2)); }
     let warmed = stats(StatsType::AccessAdded) >= 100_000;
     let until = Instant::now() + Duration::from_millis((millis / 2).clamp(150, 1500));
-    let (mut puts, mut refused) = (0u64, 0u64);
+    let (mut puts, mut refused, mut skipped) = (0u64, 0u64, 0u64);
     while accepted && warmed && Instant::now() < until {
-        let cold = 1_000_000 + puts;
+        let mut cold = 1_048_576 + puts + skipped;
+        if cold % 1024 == hot % 1024 { skipped += 1; cold += 1; }      // never a key that shares the resident's counters
         puts += 1;
         match cache.put_with_weight(cold, cold, 10).map(|ack| wait_done(&ack)) {
             Ok(CommandStatus::Rejected(_)) => refused += 1,
